@@ -2,9 +2,12 @@
 from __future__ import annotations
 
 import ast
+import re
 
 from ..absint import Interp, Iv, Obj, State
 from ..core import Ctx, RuleResult, rule
+from ..kit import bind_args, own_nodes
+from ..model import Func
 from ..model import UNKNOWN, AnalysisError, mangle, unparse
 from ..oblig import decide, get_contracts, global_sweep, interp, select
 
@@ -288,3 +291,189 @@ def r10_7_period_application_order(ctx: Ctx) -> RuleResult:
     for f in r.findings:
         f.rule = "R10.7"
     return r
+
+
+@rule("C10")
+def r10_9_calendar_free_productions(ctx: Ctx) -> RuleResult:
+    from ..retention import check_calendar_free_productions
+
+    rr = RuleResult("R10.9", "arithmetic keeps the calendar: no result is assembled from calendar-free pieces (instant, day number, local instant) while a calendar-bearing value is in hand", min_instances=100)
+    check_calendar_free_productions(ctx, rr)
+    return rr
+
+
+# ------------------------------------------------------------------------------------------- truncating adjusters
+
+
+class _Lin:
+    """Linear form over the basis {N, N mod m, 1} with rational coefficients (N = the nanosecond-of-day of the adjusted time);
+    `unk` marks a contribution that is not expressible in the basis."""
+
+    def __init__(self, terms: dict | None = None, unk: str | None = None) -> None:
+        from fractions import Fraction
+
+        self.t = {k: Fraction(v) for k, v in (terms or {}).items() if v != 0}
+        self.unk = unk
+
+    def __add__(self, o: "_Lin") -> "_Lin":
+        t = dict(self.t)
+        for k, v in o.t.items():
+            t[k] = t.get(k, 0) + v
+        return _Lin(t, self.unk or o.unk)
+
+    def scale(self, c) -> "_Lin":
+        return _Lin({k: v * c for k, v in self.t.items()}, self.unk)
+
+    def const(self):
+        return self.t.get("1", 0) if set(self.t) <= {"1"} and not self.unk else None
+
+    def show(self) -> str:
+        if self.unk:
+            return f"<not a combination of N and its remainders: {self.unk}>"
+        parts = []
+        for k, v in sorted(self.t.items(), key=str):
+            nm = "N" if k == "N" else ("1" if k == "1" else f"N%{k[1]}")
+            parts.append(f"{'+' if v > 0 else '-'} {abs(v) if abs(v) != 1 or nm == '1' else ''}{'' if nm == '1' else nm}".replace("  ", " "))
+        return " ".join(parts).lstrip("+ ") or "0"
+
+
+def _quot_rem(unit: int, mod: int | None) -> _Lin:
+    """N // unit [% mod] in the basis (valid for N >= 0, which R10.1 proves for every LocalTime)."""
+    from fractions import Fraction
+
+    if mod is None:
+        return _Lin({"N": Fraction(1, unit), ("mod", unit): Fraction(-1, unit)}) if unit != 1 else _Lin({"N": 1})
+    if unit == 1:
+        return _Lin({("mod", mod): 1})
+    return _Lin({("mod", unit * mod): Fraction(1, unit), ("mod", unit): Fraction(-1, unit)})
+
+
+@rule("C10")
+def r10_10_truncating_adjusters(ctx: Ctx) -> RuleResult:
+    """TimeAdjusters.truncate_to_<unit>: the adjusted time is exactly N - N % unit.  The adjuster's expression is evaluated over
+    linear forms in N and its remainders, with every accessor standing for the quotient/remainder form that R10.2 proves for it,
+    LocalTime constructors/factories for the expression they store, and plus_<unit> for an addition of that many nanoseconds."""
+    rr = RuleResult("R10.10", "truncating time adjusters yield exactly N - N % unit (nothing finer than the unit survives, nothing coarser is lost)", min_instances=3)
+    M = ctx.M
+    meta = M.cls("__TimeAdjustersMeta")
+    lt = M.cls("LocalTime")
+
+    def const(n):
+        v = M.fold_class_const("PyodaConstants", n)
+        if not isinstance(v, int):
+            raise AnalysisError(f"PyodaConstants.{n} not foldable")
+        return v
+
+    def accessor(name: str) -> _Lin | None:
+        if name not in ACCESSORS or M.find_method(lt, name) is None:
+            return None
+        u, m, _ = ACCESSORS[name]
+        return _quot_rem(const(u) if u else 1, const(m) if m else None)
+
+    def field_unit(plus: Func) -> int | None:
+        """plus_<unit>(v): nanoseconds per unit of the _TimePeriodField it delegates to"""
+        for n in own_nodes(plus.node):
+            if isinstance(n, ast.Attribute) and isinstance(n.value, ast.Name) and n.value.id == "_TimePeriodField":
+                g = M.find_method(M.cls("_TimePeriodFieldMeta"), n.attr)
+                if g is not None:
+                    for c in own_nodes(g.node):
+                        if isinstance(c, ast.Call) and c.args:
+                            v = M.fold(c.args[0], g.cls, g.mod)
+                            if isinstance(v, int):
+                                return v
+        return None
+
+    def ev(e: ast.expr, env: dict, fn, depth: int = 0) -> _Lin:
+        if isinstance(e, ast.Constant) and isinstance(e.value, int):
+            return _Lin({"1": e.value})
+        if isinstance(e, ast.Name):
+            if e.id in env:
+                return env[e.id]
+            return _Lin(unk=e.id)
+        if isinstance(e, ast.Attribute):
+            if isinstance(e.value, ast.Name) and env.get(e.value.id) == "TIME":
+                a = accessor(e.attr)
+                return a if a is not None else _Lin(unk=unparse(e))
+            v = M.fold(e, fn.cls if hasattr(fn, "cls") else None, fn.mod)
+            if isinstance(v, int):
+                return _Lin({"1": v})
+            return _Lin(unk=unparse(e))
+        if isinstance(e, ast.UnaryOp) and isinstance(e.op, ast.USub):
+            return ev(e.operand, env, fn, depth).scale(-1)
+        if isinstance(e, ast.BinOp):
+            a, b = ev(e.left, env, fn, depth), ev(e.right, env, fn, depth)
+            if isinstance(e.op, ast.Add):
+                return a + b
+            if isinstance(e.op, ast.Sub):
+                return a + b.scale(-1)
+            if isinstance(e.op, ast.Mult):
+                if b.const() is not None:
+                    return a.scale(b.const())
+                if a.const() is not None:
+                    return b.scale(a.const())
+            if isinstance(e.op, ast.Mod) and b.const() is not None and a.t == {"N": 1} and not a.unk:
+                return _Lin({("mod", int(b.const())): 1})
+            if isinstance(e.op, ast.FloorDiv) and b.const() is not None and a.t == {"N": 1} and not a.unk:
+                return _quot_rem(int(b.const()), None)
+            return _Lin(unk=unparse(e)[:60])
+        if isinstance(e, ast.Call):
+            # LocalTime(...) / LocalTime.<factory>(...) / <time>.plus_<unit>(v)
+            if isinstance(e.func, ast.Attribute) and isinstance(e.func.value, ast.Name) and env.get(e.func.value.id) == "TIME":
+                g = M.find_method(lt, e.func.attr)
+                u = field_unit(g) if g is not None and e.func.attr.startswith("plus_") else None
+                if u is not None and len(e.args) == 1:
+                    return _Lin({"N": 1}) + ev(e.args[0], env, fn, depth).scale(u)  # modulo one day: exact when the result stays in [0, day)
+                return _Lin(unk=unparse(e)[:60])
+            tg, how = ctx.R.callees(e, fn, count=False)
+            tg = [t for t in tg if t.cls is not None and t.cls.name == "LocalTime" and t.name != "__new__"]
+            if how == "resolved" and len(tg) == 1 and depth < 3:
+                g = tg[0]
+                b = bind_args(e, g)
+                genv: dict = {}
+                for p in g.value_params:
+                    if p.arg in b:
+                        genv[p.arg] = ev(b[p.arg], env, fn, depth)
+                    else:
+                        d = g.default_of(p.arg)
+                        genv[p.arg] = ev(d, {}, g, depth) if d is not None else _Lin(unk=p.arg)
+                stores = [n.value for n in own_nodes(g.node) if isinstance(n, ast.Assign) and isinstance(n.targets[0], ast.Attribute) and mangle("LocalTime", n.targets[0].attr) == mangle("LocalTime", "__nanoseconds")]
+                inner = [k.value for n in own_nodes(g.node) if isinstance(n, ast.Return) and isinstance(n.value, ast.Call) for k in n.value.keywords if k.arg == "nanoseconds"]
+                cands = stores or inner
+                if len(cands) == 1:
+                    return ev(cands[0], genv, g, depth + 1)
+            return _Lin(unk=unparse(e)[:60])
+        return _Lin(unk=unparse(e)[:60])
+
+    for name, f in sorted(meta.methods.items()):
+        m = re.match(r"truncate_to_(\w+)$", name)
+        if not m:
+            continue
+        rr.inst()
+        unit = const("NANOSECONDS_PER_" + m.group(1).upper())
+        lams = [n.value for n in own_nodes(f.node) if isinstance(n, ast.Return) and isinstance(n.value, ast.Lambda)]
+        if len(lams) != 1 or len(lams[0].args.args) != 1:
+            lam_f = None
+            # a nested def returned by name
+            rets = [n.value for n in own_nodes(f.node) if isinstance(n, ast.Return) and isinstance(n.value, ast.Name)]
+            if len(rets) == 1 and rets[0].id in f.nested:
+                lam_f = f.nested[rets[0].id]
+                body_rets = [n.value for n in own_nodes(lam_f.node) if isinstance(n, ast.Return) and n.value is not None]
+                if len(body_rets) == 1 and len(lam_f.params) == 1:
+                    from ..kit import inline_locals
+
+                    expr, par = inline_locals(lam_f.node, body_rets[0]), lam_f.params[0].arg
+                else:
+                    lam_f = None
+            if lam_f is None:
+                rr.fail(f.qual, "adjuster is not a one-parameter function returning one expression (shape not analysed)", ctx.loc(f))
+                continue
+        else:
+            expr, par = lams[0].body, lams[0].args.args[0].arg
+        got = ev(expr, {par: "TIME"}, f)
+        want = _Lin({"N": 1, ("mod", unit): -1})
+        rr.states += 1
+        if not got.unk and got.t == want.t:
+            rr.ok({"adjuster": name, "result": got.show(), "unit": unit})
+        else:
+            rr.fail(f.qual, f"the adjusted time is `{got.show()}`, not `N - N%{unit}`: " + ("components finer than the unit survive or coarser ones are lost" if not got.unk else "not shown to be the exact truncation"), ctx.loc(f))
+    return rr
